@@ -186,6 +186,44 @@ def installer_rule(run, rule, ast):
             dest = astq.strip(args[2])
             ss_copies.append((src_member(args[0]), src_member(args[1]), dest, c))
         first = [c for c in ss_copies if c[2] is not None and c[2].get("k") == "MemberExpr" and c[2].get("member") == SS]
+        if not first:
+            # no block copy into the array: an element-wise installer - check the indexed stores instead
+            stores = []
+            for n in astq.walk(f["body"]):
+                if n.get("k") == "BinaryOperator" and n.get("op") == "=":
+                    sub = is_ss_subscript(n["c"][0])
+                    if sub is not None:
+                        rhs = astq.strip(n["c"][1])
+                        src = None
+                        j = None
+                        if rhs is not None and rhs.get("k") == "CXXOperatorCallExpr" and rhs.get("oop") == "[]":
+                            mem = [x["member"] for x in astq.walk(rhs["c"][1]) if x.get("k") == "MemberExpr" and x.get("member") in ("slots", "strides")]
+                            src = mem[0] if mem else None
+                            j = astq.affine(rhs["c"][2], {}, symname)
+                        stores.append((astq.affine(sub["c"][1], {}, symname), src, j, n))
+            if not any(s0[1] == "strides" for s0 in stores):
+                # a cursor-style installer: `auto it = ...slots_strides_ptr; *it++ = m.slots[..]; ...`
+                cw = cursor_installer(f)
+                if cw is None:
+                    run.broken.append("%s: neither a block copy, indexed stores nor cursor writes of slots and strides into the method's array were recognised" % f["name"][-60:])
+                    continue
+                for pos, src, j, n in cw:
+                    exp = j if src == "slots" else astq.aff_add(j, {"arity": 1})
+                    okx = pos == exp
+                    run.instance(rule, "%s: %s[%s] written to cell %s" % (f["name"][-60:], src, astq.aff_show(j), astq.aff_show(pos)), (f["file"], n["l"]), ok=okx)
+                    if not okx:
+                        run.violation(rule, "compiler::install_gv|%s-cell" % src, "install_gv writes %s[%s] to cell %s of the array; the layout (and every reader) needs cell %s" % (src, astq.aff_show(j), astq.aff_show(pos), astq.aff_show(exp)), (f["file"], n["l"]))
+                continue
+            for idx, src, j, n in stores:
+                if src is None or idx is None or j is None:
+                    run.broken.append("%s: store into the slots-and-strides array not classifiable (line %s)" % (f["name"][-60:], n["l"]))
+                    continue
+                exp = j if src == "slots" else astq.aff_add(astq.aff_add(j, {"arity": 1}), {})
+                okx = idx == exp
+                run.instance(rule, "%s: %s[%s] stored in cell %s" % (f["name"][-60:], src, astq.aff_show(j), astq.aff_show(idx)), (f["file"], n["l"]), ok=okx)
+                if not okx:
+                    run.violation(rule, "compiler::install_gv|%s-cell" % src, "install_gv stores %s[%s] in cell %s of the array; the layout needs cell %s" % (src, astq.aff_show(j), astq.aff_show(idx), astq.aff_show(exp)), (f["file"], n["l"]))
+            continue
         ok1 = len(first) == 1 and first[0][0] == "slots" and first[0][1] == "slots"
         run.instance(rule, "%s: slots copied to the start of the slots-and-strides array" % f["name"][-60:], (f["file"], f["line"]), ok=ok1)
         if not ok1:
@@ -219,6 +257,85 @@ def installer_rule(run, rule, ast):
                 run.violation(rule, "compiler::install_gv|uni-cell", "install_gv stores a uni-method's slot as %s = %s" % (astq.text(n["c"][0]), astq.text(n["c"][1])), (f["file"], n["l"]))
 
 
+def cursor_installer(f):
+    """writes `*cur++ = m.slots[j]` / `m.strides[j]` through a cursor initialised with slots_strides_ptr:
+    -> [(cell position affine, 'slots'|'strides', source index affine, node)] or None when not in that form."""
+    cur = None
+    for n in astq.walk(f["body"]):
+        if n.get("k") == "DeclStmt":
+            for d in n["decls"]:
+                i0 = astq.strip(d.get("init")) if d.get("init") is not None else None
+                if i0 is not None and i0.get("k") == "MemberExpr" and i0.get("member") == SS:
+                    cur = d["did"]
+    if cur is None:
+        return None
+    out = []
+    bad = []
+
+    def is_write(n):
+        if n.get("k") != "BinaryOperator" or n.get("op") != "=":
+            return None
+        l = astq.strip(n["c"][0])
+        if l.get("k") == "UnaryOperator" and l.get("op") == "*":
+            inc = astq.strip(l["c"][0])
+            if inc.get("k") == "UnaryOperator" and inc.get("op") == "++" and inc.get("postfix") and astq.strip(inc["c"][0]).get("k") == "DeclRefExpr" and astq.strip(inc["c"][0])["ref"]["did"] == cur:
+                rhs = astq.strip(n["c"][1])
+                if rhs.get("k") == "CXXOperatorCallExpr" and rhs.get("oop") == "[]":
+                    mem = [x["member"] for x in astq.walk(rhs["c"][1]) if x.get("k") == "MemberExpr" and x.get("member") in ("slots", "strides")]
+                    if mem:
+                        return mem[0], rhs["c"][2]
+        return None
+
+    def walk(n, count, env):
+        k = n.get("k")
+        if k == "CompoundStmt":
+            for c in n.get("c") or []:
+                count = walk(c, count, env)
+            return count
+        if k == "IfStmt":
+            c1 = walk(n["then"], count, env) if n.get("then") else count
+            return c1
+        if k == "ForStmt":
+            init = n.get("init")
+            if not (init and init.get("k") == "DeclStmt" and len(init["decls"]) == 1):
+                if any(is_write(x) for x in astq.walk(n)):
+                    bad.append(n)
+                return count
+            var = init["decls"][0]
+            lo = astq.affine(var.get("init"), env, symname)
+            c0 = astq.strip(n.get("cond"))
+            hi = astq.affine(c0["c"][1], env, symname) if c0 is not None and c0.get("k") == "BinaryOperator" and c0.get("op") == "<" else None
+            if lo is None or hi is None:
+                if any(is_write(x) for x in astq.walk(n)):
+                    bad.append(n)
+                return count
+            env2 = dict(env)
+            env2[var["did"]] = {var["name"]: 1}
+            writes = [(x, is_write(x)) for x in (n["body"].get("c") or [n["body"]]) if is_write(x)]
+            per = len(writes)
+            for t, (x, (src, jn)) in enumerate(writes):
+                pos = astq.aff_add(count, astq.aff_add(astq.aff_scale(astq.aff_add({var["name"]: 1}, lo, -1), per), {1: t} if t else {}))
+                out.append((pos, src, astq.affine(jn, env2, symname), x))
+            return astq.aff_add(count, astq.aff_scale(astq.aff_add(hi, lo, -1), per))
+        w = is_write(n)
+        if w:
+            out.append((dict(count), w[0], astq.affine(w[1], env, symname), n))
+            return astq.aff_add(count, {1: 1})
+        return count
+    # the statements that follow the cursor's declaration, in its own block
+    for n in astq.walk(f["body"]):
+        if n.get("k") == "CompoundStmt":
+            cs = n.get("c") or []
+            for i, s0 in enumerate(cs):
+                if s0.get("k") == "DeclStmt" and any(d["did"] == cur for d in s0["decls"]):
+                    count = {}
+                    for s1 in cs[i + 1:]:
+                        count = walk(s1, count, {})
+    if bad or not out or any(o[2] is None for o in out):
+        return None
+    return out
+
+
 def codec_rule(run, rule, ast):
     """decode copies 2*arity-1 cells per method to the start of the array; the encoder emits slots then strides."""
     for f in [f for f in ast.funcs if f.get("body") and "decode_dispatch_data<" in f["name"]]:
@@ -237,6 +354,9 @@ def codec_rule(run, rule, ast):
                     env = {did: astq.affine(init, {}, symname) for did, init in vardefs.items() if astq.affine(init, {}, symname) is not None}
                     cnt = astq.affine(args[1], env, symname)
                     hits.append((cnt, n))
+        if not hits:
+            run.broken.append("%s: no block copy into the method's slots-and-strides array recognised" % f["name"][:70])
+            continue
         ok = len(hits) == 1 and hits[0][0] == {"arity": 2, 1: -1}
         run.instance(rule, "%s: copies 2*arity-1 cells to the start of the method's array" % f["name"][:70], (f["file"], f["line"]), ok=ok)
         if not ok:
@@ -250,6 +370,9 @@ def codec_rule(run, rule, ast):
                 mem = [x["member"] for x in astq.walk(a0) if x.get("k") == "MemberExpr" and x.get("member") in ("slots", "strides", "dispatch_table")]
                 if mem and mem[0] in ("slots", "strides"):
                     order.append((mem[0], n["l"]))
+        if not order:
+            run.broken.append("%s: emission of slots / strides not recognised" % f["name"][:70])
+            continue
         ok = [o[0] for o in order] == ["slots", "strides"]
         run.instance(rule, "%s: emits a method's slots, then its strides" % f["name"][:70], (f["file"], f["line"]), ok=ok)
         if not ok:
